@@ -3,6 +3,7 @@ package exec
 import (
 	"bufio"
 	"bytes"
+	"context"
 	"encoding/json"
 	"fmt"
 	"math/rand"
@@ -13,6 +14,7 @@ import (
 	"verifharness/tr"
 
 	"github.com/0chain/common/core/util"
+	"github.com/linxGnu/grocksdb"
 )
 
 // MOp is one operation of an mpt history.
@@ -360,4 +362,86 @@ func GenMPTHistory(r *rand.Rand, maxOps int) []MOp {
 		ops = append(ops, op)
 	}
 	return ops
+}
+
+// RunMPTBulk is the large-scope companion of the sweep (C14): one trie of several hundred entries on a memory level
+// over a persistent store; the whole change set goes to the persistent store in ONE SaveChanges (a multi-put of
+// several hundred nodes), stores are copied with MergeState in both directions, every store is swept (key =
+// independent hash of the content, decode/encode round trip) and the trie is read back from the persistent stores
+// alone.  Emitted as a trace of its own consisting of one sweep event.
+func RunMPTBulk(w *tr.Writer, st *MPTStats, tid int, r *rand.Rand) {
+	w.NextTrace()
+	st.Traces++
+	env := NewTrieEnv("levelp", int64(1+r.Intn(3)))
+	defer env.Close()
+	n := 200 + r.Intn(500)
+	want := map[string][]byte{}
+	for i := 0; i < n; i++ {
+		p := make([]byte, 2*(1+r.Intn(4)))
+		for j := range p {
+			p[j] = "0123456789abcdef"[r.Intn(16)]
+		}
+		v := []byte(fmt.Sprintf("v%d:%d\x00:\xff", i, r.Intn(1000)))
+		if r.Intn(10) == 0 {
+			if _, err := env.Trie.Delete(util.Path(append([]byte(nil), p...))); err == nil {
+				delete(want, string(p))
+			}
+			continue
+		}
+		if _, err := env.Trie.Insert(util.Path(append([]byte(nil), p...)), Val(v)); err != nil {
+			panic(err)
+		}
+		want[string(p)] = v
+	}
+	keysOK, rtOK, total := true, true, 0
+	sweep := func(db util.NodeDB) {
+		s := SweepDB(db, env.Version)
+		keysOK, rtOK, total = keysOK && s.KeysOK, rtOK && s.RtOK, total+s.N
+		for c := range s.Classes {
+			st.Classes[c] = true
+		}
+	}
+	readback := func(db util.NodeDB) bool {
+		t2 := util.NewMerklePatriciaTrie(db, util.Sequence(env.Version), env.Trie.GetRoot(), NewTxnCache())
+		items, res := IterItems(t2)
+		if res != "ok" || len(items) != len(want) {
+			return false
+		}
+		for _, it := range items {
+			if !bytes.Equal(want[string(it.Path)], it.Value) {
+				return false
+			}
+		}
+		return true
+	}
+	res := Guard(func() string {
+		if err := env.Trie.SaveChanges(context.Background(), env.Lower, false); err != nil {
+			return "err"
+		}
+		pdirSeq++
+		dir2 := fmt.Sprintf("stub-%d", pdirSeq)
+		p2, err := util.NewPNodeDB(dir2, "log")
+		if err != nil {
+			return "err"
+		}
+		defer grocksdb.DropStore(dir2)
+		mem2 := util.NewMemoryNodeDB()
+		if util.MergeState(context.Background(), env.Lower, p2) != nil || util.MergeState(context.Background(), p2, mem2) != nil {
+			return "err"
+		}
+		for _, db := range []util.NodeDB{env.DB.(*util.LevelNodeDB).GetCurrent(), env.Lower, p2, mem2} {
+			sweep(db)
+		}
+		// read back through the real trie only from stores whose nodes all sit under their own hash (a store with
+		// misplaced nodes can hold cycles, which the real iteration would follow forever)
+		if keysOK && rtOK && (!readback(env.Lower) || !readback(p2) || !readback(mem2)) {
+			keysOK = false
+		}
+		return "ok"
+	})
+	if res != "ok" {
+		keysOK = false
+	}
+	w.Emit(map[string]any{"tid": tid, "op": "sweep", "keysOK": keysOK, "rtOK": rtOK, "n": total, "bulk": n})
+	st.Events++
 }
